@@ -64,6 +64,11 @@ pub fn run(r: &mut Report) {
         let (res, _, _) = run_case(StepFault::None, inspection("insp", &c, allow_all(), allow_all()));
         r.case("nonzero-exit-is-fatal", json!({"run": c}), "Err", format!("verdict_ok={:?}", res), matches!(res, Ok(false)));
     }
+    // a command killed by a signal has no zero exit status either
+    std::fs::write("/tmp/verif_kill_self.sh", "#!/bin/sh\nkill -KILL $$\n").unwrap();
+    let (res, _, _) = run_case(StepFault::None, inspection("insp", &["sh", "/tmp/verif_kill_self.sh"], allow_all(), allow_all()));
+    let _ = std::fs::remove_file("/tmp/verif_kill_self.sh");
+    r.case("killed-inspection-is-fatal", json!({"run": "sh script: kill -KILL $$"}), "Err", format!("verdict_ok={:?}", res), matches!(res, Ok(false)));
     let (res, _, _) = run_case(StepFault::None, inspection("insp", &["true"], allow_all(), allow_all()));
     r.case("zero-exit-is-accepted", json!({"run": ["true"]}), "Ok", format!("verdict_ok={:?}", res), matches!(res, Ok(true)));
     // 4. the inspection's own artifact rules are enforced on what it recorded
